@@ -392,8 +392,8 @@ func (g *G) Value(t reflect.Type, p P, depth int) reflect.Value {
 			n = rapid.Int64Range(lb, hi).Draw(g.T, "ln")
 			if g.O.BigLists && g.budget > 100 && depth <= 8 && g.intn(0, 11, "lbig") == 0 {
 				var c []int64
-				for _, x := range []int64{127, 128, 129, 255, 256, 257, 300, ub} {
-					if x >= lb && x <= ub && x <= 300 {
+				for _, x := range []int64{127, 128, 129, 255, 256, 257, 300, 1023, 1024, 1025, 1500, 2048, 2049, ub} {
+					if x >= lb && x <= ub && (x <= 300 || x <= 2049 && g.O.Budget >= 5000) {
 						c = append(c, x)
 					}
 				}
